@@ -260,7 +260,7 @@ type schedScenario struct {
 	name string
 	// prepare, if set, runs once per job outside any bubble (reference executions of the same requests one at a time)
 	prepare func(t *testing.T)
-	build func(x *schedExec) (acts []activity, atPoint func() *pt.Violation, atEnd func() *pt.Violation, shutdown func())
+	build   func(x *schedExec) (acts []activity, atPoint func() *pt.Violation, atEnd func() *pt.Violation, shutdown func())
 }
 
 var schedScenarios = map[string]func(params json.RawMessage) schedScenario{}
